@@ -45,7 +45,14 @@ def gen_entry_case(rng: Rng, tier, force=None):
         degree, hu = min(degree, 1), max(hu, Fraction(1, 2))
     if entry == "multi_smooth":
         kernel, degree = "epanechnikov", 1
-    own = entry in ("dense_smooth", "dense_mean") and (force.get("own") or rng.random() < 0.35)
+    intgrid = entry in ("dense_smooth", "dense_mean", "dense_smooth2d") and (force.get("intgrid") or rng.random() < 0.3)
+    if intgrid:
+        # integer-valued sampling points (day numbers): the argvals are also handed over as int64 / int32 arrays
+        dom = "doy"
+        lo, sc = DOMS[dom]
+        g = [Fraction(j, 364) for j in sorted(rng.sample(range(0, 365), m))]
+        degree = max(degree, 1)
+    own = not intgrid and entry in ("dense_smooth", "dense_mean") and (force.get("own") or rng.random() < 0.35)
     if own:
         # a nearly regular grid (relative spacing jitter ~2^-r) smoothed at its OWN points (points=None)
         r = rng.choice([7, 10, 13, 17, 23])
@@ -59,8 +66,12 @@ def gen_entry_case(rng: Rng, tier, force=None):
     X = lambda v: [rs(lo + sc * t) for t in v]  # noqa: E731
     coefs = [rng.dyadic(-2, 2, 2) for _ in range(degree + 1)]
     poly = lambda t: sum(c * t ** k for k, c in enumerate(coefs))  # noqa: E731
+    if intgrid:
+        case["intgrid"] = True
     if two_d:
         g2 = _grid(rng, rng.choice([5, 6]))
+        if intgrid:
+            g2 = [Fraction(j, 364) for j in sorted(rng.sample(range(0, 365), len(g2)))]
         case["x"], case["x2"] = X(g), X(g2)
         case["Y"] = [[[rs(rng.dyadic(-4, 4, 3)) for _ in g2] for _ in g]]
         q1 = sorted(rng.sample(range(8, 120), 3))
@@ -107,8 +118,9 @@ def _Fv(v):
     return [F(t) for t in v]
 
 
-def _build(case, mapx):
-    """Data object of the case with the sampling points mapped by `mapx(list of Fractions, axis)`; returns (object, exact)."""
+def _build(case, mapx, dtype=None):
+    """Data object of the case with the sampling points mapped by `mapx(list of Fractions, axis)`; returns (object, exact).
+    `dtype`: hand the (integer-valued) sampling points over with this integer dtype."""
     from FDApy.representation.argvals import DenseArgvals, IrregularArgvals
     from FDApy.representation.functional_data import DenseFunctionalData, IrregularFunctionalData, MultivariateFunctionalData
     from FDApy.representation.values import DenseValues, IrregularValues
@@ -120,7 +132,7 @@ def _build(case, mapx):
         ex = mapx(_Fv(v), axis)
         fv = [float(t) for t in ex]
         exact = exact and all(Fraction(f) == t for f, t in zip(fv, ex))
-        return np.array(fv)
+        return np.array(fv) if dtype is None else np.array([int(t) for t in ex], dtype=dtype)
 
     entry = case["entry"]
     if entry.startswith("irr"):
@@ -221,6 +233,14 @@ def run_entry(case):
     _SEEN.clear()
     out = dict(vals=_call(case, fd, pts, h).tolist())
     out["seen_h"] = _SEEN.get("h")
+    if case.get("intgrid"):
+        out["int_vals"] = {}
+        for dt in (np.int64, np.int32):
+            try:
+                fdi, _ = _build(case, ident, dtype=dt)
+                out["int_vals"][np.dtype(dt).name] = _call(case, fdi, pts, h).tolist()
+            except Exception as e:  # noqa: BLE001
+                out["int_vals"][np.dtype(dt).name] = f"{type(e).__name__}: {str(e)[:80]}"
     aF, shifts = F(case["a"]), [F(case["b"]), F(case["b2"])]
     aff = lambda v, axis: [aF * t + shifts[axis] for t in v]  # noqa: E731
     fda, e1 = _build(case, aff)
@@ -347,6 +367,14 @@ def entry_oracle(case, impl):
     arows = _rows(case, impl["affine"])
     if not np.all(np.isfinite(rows)):
         bad("finite", f"non-finite value from {where}")
+    for name, r in impl.get("int_vals", {}).items():
+        if isinstance(r, str):
+            bad("dtype_inputs", f"sampling points as {name}: raises {r} (the same numbers as float64 are accepted) — {where}")
+        else:
+            ri = _rows(case, r)
+            if ri.shape != rows.shape or not np.allclose(ri, rows, rtol=0, atol=1e-9 * max(_scale_of(case, 0), 1e-300)):
+                i_ = int(np.argmax(np.abs(ri - rows))) if ri.shape == rows.shape else 0
+                bad("dtype_inputs", f"sampling points as {name}: value {ri.ravel()[i_]!r} but the same grid as float64 gives {rows.ravel()[i_]!r} — {where}")
     have_ref = "_ref" in impl
     for k, row in enumerate(rows):
         sc = _scale_of(case, k)
